@@ -32,11 +32,22 @@ strategies that ask the user nothing (composite, resumable) can never be the sou
 `example`s at the end run a concrete two-level machine into non-trivial states with `err = none`.
 
 Not part of the statement: request marks.  The property text never mentions them, and "no marks
-between calls" (`Settled` of Proofs/Wf.lean) is FALSE of the model and the code in one documented-as-
-asserting corner: `replayEnter` of a non-empty history that changes nothing returns `false` with the
-marks of its initial resolution left behind on an instance that stays inactive (`stale_marks_witness`).
-`Mach.Inv` (Proofs/MachOps.lean) therefore only requires `COK`, which tolerates marks in inactive
-sub-trees; where no marks remain is recorded by the `…_inv` lemmas of Proofs/MachApi.lean.
+between calls" (`NoMarks`, part of `Settled` of Proofs/Wf.lean) is FALSE of the model and the code in
+exactly one documented-as-asserting corner: `replayEnter` of a NON-EMPTY history that changes nothing
+returns `false` with the marks of its initial resolution left behind on an instance that stays inactive
+(`stale_marks_witness`).  A `load` into that still inactive instance (`loadEnter`, which does not clear
+requests first) keeps the stale marks outside the loaded configuration, and a later transition into such
+a region follows them instead of resolving it (`stale_marks_survive_loadEnter`).
+EVERY OTHER call, made on an instance without marks, leaves none (`Mach.step_noMarks`,
+`C01_noMarks` below): in particular `load` in all four activation combinations (neither `R_::load` nor
+`RV_::loadEnter` ends with `clearRequests()`; the commit / enter pass consumes every mark
+`deepLoadRequested` laid down — Proofs/LoadMarks.lean, `Mach.load_noMarks`) and `replayTransitions`
+with either answer (`Mach.replayTransitions_noMarks`).  Stale marks are washed off by `enter / exit /
+reset`, by a `load` into an ACTIVATED instance (`Mach.load_active_noMarks`: `R_::load` starts with
+`clearRequests()`), and by a `replayTransitions` / `replayEnter` that answers `true`
+(`QuietOf` of Proofs/Reach.lean is the resulting class of histories).
+`Mach.Inv` (Proofs/MachOps.lean) itself only requires `COK`, which tolerates marks in inactive
+sub-trees; where no marks remain is recorded by the `…_inv` / `…_noMarks` lemmas of Proofs/MachApi.lean.
 -/
 import Hfsm.Proofs.MachOps
 import Hfsm.Proofs.RegistryNoAsk
@@ -246,6 +257,66 @@ theorem stale_marks_witness :
     m.w.err = none ∧ m.root.machineActive = false ∧ rootRequested m.root = some 0 := by
   decide +kernel
 
+/-! ### … but every call other than that `replayEnter` keeps "no marks" -/
+
+/-- a run of calls none of which is a `replayEnter` of a non-empty history, from an instance without
+request marks, ends without request marks -/
+theorem run_noMarks {base : Node} : (steps : List (ApiStep U)) → (m : Mach U) → Mach.Inv base m → m.root.NoMarks →
+    (∀ s ∈ steps, s.op.marksSafe = true) → (m.run steps).w.err = none → (m.run steps).root.NoMarks
+  | [], _, _, hn, _, _ => hn
+  | s :: rest, m, hi, hn, hall, he =>
+    have he1 := Mach.run_errLe rest (m.step s) he
+    run_noMarks rest (m.step s) (Mach.step_inv s hi he1)
+      (Mach.step_noMarks s hi hn (hall s List.mem_cons_self) he1)
+      (fun x hx => hall x (List.mem_cons_of_mem _ hx)) he
+
+/-- **No request mark between API calls**, for every machine structure, configuration, decisions and
+generator outputs, after ANY sequence of API calls that contains no `replayEnter` of a non-empty history —
+`load` (into an activated or a not activated instance, any buffer the model accepts) and
+`replayTransitions` (answering `true` or `false`) included — provided the model met no contract violation.
+(The full class of histories, with `replayEnter`s that answer `true` and washing calls after those that
+answer `false`, is `QuietOf` of Proofs/Reach.lean.) -/
+theorem C01_noMarks (shape : Shape) (cfg : Config) (steps : List (ApiStep U))
+    (hall : ∀ s ∈ steps, s.op.marksSafe = true)
+    (he : ((Mach.create shape cfg : Mach U).run steps).w.err = none) :
+    ((Mach.create shape cfg : Mach U).run steps).root.NoMarks :=
+  run_noMarks steps _ (Mach.create_inv shape cfg) (Node.toNode_idle shape 0 0).2.1 hall he
+
+/-- the image of `exShape` with C2 active and region A remembering A2 (`enter; changeTo(A2); changeTo(C2)`) -/
+def exImage : List Bool :=
+  ((Mach.create exShape { manual := true } : Mach Nat).run
+    [⟨quiet 80, [], .enter⟩, ⟨quiet 80, [], .immediate .change 3 none⟩, ⟨quiet 80, [], .immediate .change 8 none⟩]).save
+
+/-- `load` into a not activated instance does not wash stale marks off: after the `replayEnter` of
+`stale_marks_witness`, loading `exImage` activates the instance (root, B, B1, C, C2; no contract violation; its
+own image is `exImage` again, like that of a fresh instance loaded with it) but region A — outside the loaded
+configuration — still carries `requested = A1` from the abandoned initial resolution, where the fresh instance
+carries nothing.  Observable: `immediateChangeTo(A)` then FOLLOWS the stale mark into A1, although A is a
+resumable region that remembers A2 (which is where the fresh instance goes).
+(Like the `replayEnter` before it, this `load` is an assertion in the C++: `RV_::loadEnter` starts with
+`HFSM2_ASSERT(_core.registry.empty())`; without assertions the code does what the model does.) -/
+theorem stale_marks_survive_loadEnter :
+    let stale := (Mach.create exShape { manual := true } : Mach Nat).run
+      [⟨[], [], .replayEnter [{ origin := none, dest := 3, kind := .schedule, payload := none }]⟩,
+       ⟨quiet 80, [], .load exImage⟩]
+    let fresh := (Mach.create exShape { manual := true } : Mach Nat).run [⟨quiet 80, [], .load exImage⟩]
+    stale.w.err = none ∧ fresh.w.err = none ∧ stale.save = exImage ∧ fresh.save = exImage ∧
+    (List.range 9).map stale.root.isActive = (List.range 9).map fresh.root.isActive ∧
+    (stale.root.follow [0]).map rootRequested = some (some 0) ∧
+    (fresh.root.follow [0]).map rootRequested = some none ∧
+    (List.range 9).map (stale.step ⟨quiet 80, [], .immediate .change 1 none⟩).root.isActive =
+      [true, true, true, false, false, false, false, false, false] ∧
+    (List.range 9).map (fresh.step ⟨quiet 80, [], .immediate .change 1 none⟩).root.isActive =
+      [true, true, false, true, false, false, false, false, false] := by
+  decide +kernel
+
+/-- the hypotheses of `C01_noMarks` are satisfiable by a run with a `load` that does something: the fresh
+instance of the witness above (a `load` is `marksSafe`; no contract violation; activated by the load) -/
+example : (∀ s ∈ [(⟨quiet 80, [], .load exImage⟩ : ApiStep Nat)], s.op.marksSafe = true) ∧
+    ((Mach.create exShape { manual := true } : Mach Nat).run [⟨quiet 80, [], .load exImage⟩]).w.err = none ∧
+    ((Mach.create exShape { manual := true } : Mach Nat).run [⟨quiet 80, [], .load exImage⟩]).root.machineActive = true :=
+  ⟨by intro s hs; simp only [List.mem_singleton] at hs; subst hs; rfl, by decide +kernel, by decide +kernel⟩
+
 end Hfsm.Props.C01
 
 /-
@@ -257,4 +328,7 @@ Theorems that constitute the property (for Props/INDEX.json):
   Hfsm.Props.C01.WF_of_clean     — Clean ⇒ WF (nothing active)
   Hfsm.Props.C01.no_ask_request_err, ex_err, ex_active, ex2_err, ex2_active — non-vacuity
   Hfsm.Props.C01.stale_marks_witness — why NoMarks is not in the invariant
+  Hfsm.Props.C01.C01_noMarks, run_noMarks — NoMarks after every run without `replayEnter` of a non-empty history
+                                   (`load`, `replayTransitions` included)
+  Hfsm.Props.C01.stale_marks_survive_loadEnter — `load` into a not activated instance keeps stale marks (observable)
 -/
